@@ -99,6 +99,8 @@ def features(d):
             tags.add('equalconst-oversized')
         if type(o).__name__ == 'Equal' and (o.r.getWidth() > 1 or o.a.getWidth() != o.b.getWidth()):
             tags.add('equal-irregular')
+        if o.clockDriver is not None and o.clockDriver.wire is not None and o.clockDriver.wire.getSource() is not None:
+            tags.add('derived-clock')
         for c in o.children.values():
             walk(c)
     walk(d['hw'])
@@ -148,6 +150,8 @@ def main(res, tier, rng, replay):
     for i in range(n):
         r = rng.fork(('d', i))
         kind = ['plan', 'lib', 'hier', 'c07', 'c08'][i % 5]
+        if i % 40 == 39:
+            kind = 'derived'
         try:
             if kind == 'plan':
                 d = GV.plan_design(r, wmax=r.choice([1, 3, 8, 16, 33]))
@@ -157,6 +161,8 @@ def main(res, tier, rng, replay):
                 d = GV.c07_design(r)
             elif kind == 'c08':
                 d = GV.c08_design(r)
+            elif kind == 'derived':
+                d = GV.derived_clock_design(r)
             else:
                 d = GV.hier_design(r)
         except Exception as e:
@@ -236,6 +242,10 @@ def main(res, tier, rng, replay):
                 if d2 is None:
                     explained = True
                     detail['explained_by'] = sorted(job['patch_used'] | ({'reg-powerup'} if ('reg-powerup' in job['tags'] and j == 0) else set()))
+        if not explained and 'derived-clock' in job['tags'] and job['desc'].get('kind') == 'derived' and set(names) <= {'cnt'}:
+            # only outputs of the derived-clock domain differ (they appear one base cycle earlier in Verilog)
+            explained = True
+            detail['explained_by'] = ['derived-clock']
         if not explained and 'equal-irregular' in job['tags'] and job['desc'].get('kind') == 'c08:Equal':
             # a design consisting of exactly one irregular Equal block: nothing else can be responsible
             explained = True
